@@ -564,10 +564,20 @@ impl<'p> Interp<'p> {
     }
 
     pub fn native_arity(name: &str) -> Option<usize> {
+        // typed natives of C18: the name spells the signature, one letter per parameter
+        if let Some(sig) = name.strip_prefix("t_") {
+            if crate::typednatives::SIGNATURES.contains(&name) {
+                return Some(if sig == "z" { 0 } else { sig.len() });
+            }
+            return None;
+        }
+        if crate::typednatives::RETURNERS.contains(&name) {
+            return Some(0);
+        }
         Some(match name {
             "log" | "id" | "call0" | "mk_str" | "slen" => 1,
             "log2" | "call1" => 2,
-            "log3" => 3,
+            "log3" | "call2" => 3,
             "fail" => 0,
             _ => return None,
         })
@@ -583,6 +593,48 @@ impl<'p> Interp<'p> {
             ErrKind::AbortSignal => ErrKind::Undefined("abort_in_native_reentry"),
             other => ErrKind::TaskFailure(n.to_string(), Box::new(other)),
         };
+        if let Some(sig) = name.strip_prefix("t_") {
+            // the documented conversions: int/real from anything (nil = 0, string/table = length),
+            // bool by truthiness, &str / table only from that kind, Nilable: nil => none
+            let mut rec = vec![];
+            let mut bad = vec![];
+            for (i, (ty, a)) in sig.chars().filter(|c| *c != 'z').zip(args.iter()).enumerate() {
+                let conv = match (ty, a) {
+                    ('i', a) => Some(MV::Int(a.to_i64())),
+                    ('f', a) => Some(MV::Real(a.to_f64())),
+                    ('b', a) => Some(MV::Int(a.truthy() as i64)),
+                    ('s', RV::Str(s)) => Some(MV::Str(s.to_string())),
+                    ('v', a) => Some(a.to_mv()),
+                    ('t' | 'p', RV::Table(_)) => Some(a.to_mv()),
+                    ('n', RV::Nil) | ('m', RV::Nil) => Some(MV::Nil),
+                    ('n', a) => Some(MV::Int(a.to_i64())),
+                    ('m', RV::Str(s)) => Some(MV::Str(s.to_string())),
+                    _ => None,
+                };
+                match conv {
+                    Some(m) => rec.push(m),
+                    None => bad.push(i + 1),
+                }
+            }
+            if !bad.is_empty() {
+                self.tags.insert(format!("conv_fail:{}", bad.iter().map(|i| format!("#{}", i)).collect::<Vec<_>>().join(",")));
+                return Err(ErrKind::TaskFailure(name.to_string(), Box::new(ErrKind::InvalidArgument)));
+            }
+            self.log.push((name.to_string(), rec));
+            return Ok(RV::Int(crate::typednatives::code_of(name)));
+        }
+        match name {
+            "r_nil" => return Ok(RV::Nil),
+            "r_int" => return Ok(RV::Int(-42)),
+            "r_real" => return Ok(RV::Real(2.5)),
+            "r_str" => return Ok(RV::str("from host")),
+            "r_table" => {
+                let t = RV::new_table();
+                self.table_set(&t, RV::Int(1), RV::Int(2))?;
+                return Ok(t);
+            }
+            _ => {}
+        }
         match name {
             "log" | "log2" | "log3" => {
                 if self.log.len() > 1500 {
@@ -602,7 +654,7 @@ impl<'p> Interp<'p> {
                 RV::Str(s) => Ok(RV::Int(s.len() as i64)),
                 _ => Err(ErrKind::TaskFailure("slen".into(), Box::new(ErrKind::InvalidArgument))),
             },
-            "call0" | "call1" => {
+            "call0" | "call1" | "call2" => {
                 self.stats.native_reentries += 1;
                 let f = args[0].clone();
                 let rest: Vec<RV> = args[1..].to_vec();
